@@ -234,7 +234,7 @@ PROPS["C19"] = {
     "rule": ("rapid draws 1..3 epoch specs and 4..14 queries; non-trivial = StreamTransactions query whose range contains >=1 skipped slot and >=2 blocks and whose filter both accepts and rejects a transaction of the range; distinct by case hash"),
     "assumptions": ["reference predicate: a transaction mentions an account if it is among its static keys or its loaded addresses"],
     "units": [
-        {"name": "streams", "pkg": ".", "run": "TestVfC19", "checks": T(40, 1600), "shards": T(8, 16), "timeout": T(900, 3000), "transforms": GSFA_FASTPOLL, "env": ROOT_ENV, "shrinktime": "20s"},
+        {"name": "streams", "pkg": ".", "run": "TestVfC19", "checks": T(64, 1600), "shards": T(8, 16), "timeout": T(900, 3000), "transforms": GSFA_FASTPOLL, "env": ROOT_ENV, "shrinktime": "20s"},
     ],
 }
 
